@@ -33,7 +33,7 @@ ASSUMPTIONS = ["A-S1 sqlite3 executes the modelled SQL subset as modelled (three
 PRECONDITIONS = ["query bounds are ints (or canonical decimal text) with start <= end", "seqid without ':' in the 'seqid:start-end' string form; bounds >= 0 there",
                  "stored rows: bin == bins(start, end) when both coordinates are present (proved: C12.astuple.bin)",
                  "featuretype: non-empty string or non-empty list/tuple of strings; strand: non-empty string"]
-FUNCTIONS = ["gffutils.helpers:make_query", "gffutils.interface:FeatureDB.region", "gffutils.interface:FeatureDB.all_features",
+FUNCTIONS = ["gffutils.create:_DBCreator._insert", "gffutils.create:_DBCreator._replace", "gffutils.interface:FeatureDB._insert", "gffutils.interface:FeatureDB._update", "gffutils.helpers:make_query", "gffutils.interface:FeatureDB.region", "gffutils.interface:FeatureDB.all_features",
              "gffutils.interface:FeatureDB.features_of_type", "gffutils.interface:FeatureDB.children", "gffutils.interface:FeatureDB.parents",
              "gffutils.interface:FeatureDB._relation", "gffutils.interface:FeatureDB._execute"]
 
